@@ -988,7 +988,9 @@ class Engine:
         if typ == 'same' or (typ is None and isinstance(old, (VRef, VFn, VBM, VBI, VCls, VSeq))):
             return old
         if typ is None and isinstance(old, VC) and old.v is None:
-            raise Unsupported('havoc of %s (None on entry) needs a declared type' % name)
+            # a local that is None before the loop and assigned inside it, with no type declared in the sidecar (e.g. a
+            # temporary added to the source): any value, None included (over-approximation)
+            return self.fresh_opaque(name)
         return self.fresh_opaque(name)
 
     def havoc_seq_ghost(self, sq):
